@@ -36,7 +36,10 @@ use core::mem;
 use core::mem::size_of;
 use core::ops::{RangeBounds, RangeFull};
 use core::panic;
+#[cfg(not(redb_verif))]
 use core::sync::atomic::{AtomicBool, Ordering};
+#[cfg(redb_verif)]
+use {crate::sync::verif::atomic::AtomicBool, core::sync::atomic::Ordering};
 #[cfg(feature = "logging")]
 use log::{debug, warn};
 
